@@ -325,10 +325,11 @@ def check_property(prop, tier, seed, replay=None):
         fails = None
         if scn is not None:
             rr = _scenario_worker((modname, scn, 300))
-            fails = rr["fails"] or ([{"what": "error", "detail": rr["error"]}] if rr["error"] else [])
+            # (a replay that crashes reproduces nothing: it is recorded, it does not confirm)
+            fails = rr["fails"] or ([{"what": "replay-error (not a reproduction)", "detail": rr["error"], "replay_error": True}] if rr["error"] else [])
             # a replay that lands in a known-finding region does not confirm THIS obligation
             fails = [f for f in fails if not ((f.get("finding") or classify(scn, f)) in open_ids)]
-            confirmed = bool(fails)
+            confirmed = any(not f.get("replay_error") for f in fails)
         if not confirmed and rt_fail:
             # the bounded layer found a failing input on the same tree
             pass
